@@ -11,13 +11,18 @@ c) row-filter parity: ConditionEvaluatorBuilder::build_from_plan must add the ev
 (d) chunked (SIMD) column folds take the values and the validity flags of a chunk at the SAME offset: in Sum/Avg::update_column_simd both operands of every lane-wise Simd operation
 depend on the same loop-carried index (a mask built from the whole validity vector, or from another offset, silently applies chunk 0's NULL pattern to every chunk - the fold then differs from the
 row-at-a-time fold whenever NULLs are not aligned with the chunking).
+(e) the per-sink group-key cache is probed with a hash that sees the row's CALENDAR bucket: whatever AggregateSink::compute_group_key hands to GroupKeyCache::get_or_insert as the probe is computed
+through the same bucketing as the key (GroupKey::from_row_with_indices, or time_bucketing::bucket_of directly) - a probe built from a cheaper stand-in for the bucket (UTC hour / day slots) lets a row
+inherit the key, and so the bucket, of an earlier row whenever the configured calendar does not coincide with UTC.
+Borrowed: C07.h (bitmap byte / bit index agreement: the SIMD TOTAL / AVG path reads validity through get_i64_slice_with_validity).
 """
-FLOOR = 6
-REQUIRED = ["C09.a1", "C09.a2", "C09.a3", "C09.b", "C09.c", "C09.d"]
+FLOOR = 8
+REQUIRED = ["C09.a1", "C09.a2", "C09.a3", "C09.b", "C09.c", "C09.d", "C09.e", "C09/C07.h"]
 
 
 def run(ctx):
     F = ctx.F
+    ctx.borrow("C07", ["C07.h"], "C09")
 
     def a1(inst):
         b = F.fn("aggregate::partial::AggState::merge")
@@ -213,3 +218,35 @@ def run(ctx):
             raise AnchorMissing("lane-wise operations (found %d, confirmed 2)" % n)
         return bad
     ctx.run("C09.d", "K11 SIB", "Sum/Avg::update_column_simd", "values and validity of a chunk are taken at the same offset", d_)
+
+    def e_(inst):
+        b = F.fn("AggregateSink::compute_group_key")
+        gi = [c_ for c_ in b.find_calls(r"GroupKeyCache::get_or_insert$")]
+        if len(gi) != 1:
+            raise AnchorMissing("GroupKeyCache::get_or_insert in compute_group_key (%d)" % len(gi))
+        g = gi[0]
+        sl = wide_all(b, g.args[1], partial=False)
+        names, todo, seen_k = set(), [], set()
+        for c_ in b.calls:
+            if not c_.cleanup and c_.dest and c_.dest[0] in sl:
+                names.add(c_.nname)
+                todo.append(c_.nname)
+        # one level: closures of compute_group_key that are called for the probe (compute_key())
+        for k in todo:
+            if "::{closure#" in k and F.has(k):
+                for c_ in F.fn_exact(k).calls:
+                    if not c_.cleanup:
+                        names.add(c_.nname)
+        # a prehash computed from the columns sees the calendar bucket only if it is given the time bucket (not None)
+        via_cols = False
+        for c_ in b.calls:
+            if not c_.cleanup and c_.dest and c_.dest[0] in sl and c_.nname.endswith("GroupKey::compute_prehash_from_columns"):
+                L0 = b.origins(c_.args[0])
+                if not any(l[0] == "agg" and str(l[1]).endswith("Option::None") for l in L0) and not all(l[0] == "const" for l in L0):
+                    via_cols = True
+        short = sorted({n_.split("::")[-1] for n_ in names if "sink::aggregate" in n_ or "time_bucketing" in n_})
+        inst.sites = [sp(b, g.bb), "probe computed through: %s" % short]
+        if not via_cols and not any(re.search(r"GroupKey::from_row_with_indices$|time_bucketing::bucket_of$", n_) for n_ in names):
+            return [("probe-without-calendar-bucket", "the group-key cache is probed with a hash that is not computed through the calendar bucketing of the key (%s): rows of different calendar buckets can share a cache entry and inherit each other's bucket" % short, None)]
+        return []
+    ctx.run("C09.e", "K7 PROV", "AggregateSink::compute_group_key", "the group-key cache probe depends on the row's calendar bucket", e_)
